@@ -21,7 +21,15 @@ RULE = ("every ordered pair of documents with <= 2 nodes each (quick; <= 3 nodes
         "order are proved to meet the specification; a difference in content, outcome class or OrderOK is a violation, a "
         "difference in key interleaving only is a broken correspondence.  The finite tables (option names, defaults) and "
         "Python == on a grid of values are compared completely.  distinct_nontrivial = distinct (l, r, policy) cases whose "
-        "result is a document different from both inputs.")
+        "result is a document different from both inputs.  Series: 24 000 (quick) left documents with 2-3 sibling sections of "
+        "related content and 2-3 right-hand documents merged in turn by ONE Merger / MergerConfig, each naming one section with "
+        "the same or a related body (an equal-valued node under an equal parent at different paths of successive documents), "
+        "rules / keys addressed at nodes of the first; every step is judged as the merge of the Merger's document as it stood "
+        "before the step with that step's right-hand document against the model, which knows no earlier step.  YAML merge keys: "
+        "4 000 (quick) left documents (loaded from text) in which 2-3 Hashes inherit an anchored Hash through `<<: *b`, right-hand "
+        "documents naming inherited / own / new keys of one of them in random order; judged directly: every Hash the right-hand "
+        "document does not name reads as before (in memory and re-read from the written document), every key of the named Hash "
+        "it does not name reads as before in the written document, a named Scalar is taken.")
 
 CORPUS = [
     # (l, r, cfg)
@@ -244,7 +252,307 @@ def _rand_job(job):
     return run_cases(cases)
 
 
+# --------------------------------------------------------------------------- a series of merges by ONE Merger
+
+SECTION_KEYS = ["prod", "test", "a", "b", "c", "k1"]
+
+
+def series_case(rng):
+    """One left document with two or three sibling sections of related content; a series of right-hand documents, each naming
+    one (sometimes two) of the sections with the SAME or a related body - so that an equal-valued node with an equal parent
+    stands at different paths of successive right-hand documents; rules / keys addressed at nodes of the first of them."""
+    body = mg.rand_doc(rng, 2, "map")
+    if rng.random() < 0.5:
+        body["e"].append(["hosts", mg.L(*[mg.rand_scalar(rng) for _ in range(rng.randint(1, 2))])])
+    if rng.random() < 0.4:
+        body["e"].append(["users", mg.L(*[mg.rand_record(rng, 1) for _ in range(rng.randint(1, 2))])])
+    seen, es = set(), []
+    for k, v in body["e"]:
+        if k not in seen:
+            seen.add(k)
+            es.append([k, v])
+    body = {"k": "map", "e": es}
+    ks = rng.sample(SECTION_KEYS, rng.choice([2, 2, 3]))
+    l = mg.M(*[(k, mg.mutate(rng, body, 2)) for k in ks])
+    rs = []
+    for i in range(rng.choice([2, 2, 3])):
+        k = ks[i % len(ks)] if rng.random() < 0.8 else rng.choice(ks)
+        b = body if rng.random() < 0.7 else mg.mutate(rng, body, 2)
+        es = [(k, b)]
+        if rng.random() < 0.15:
+            k2 = rng.choice([x for x in ks if x != k])
+            es.append((k2, mg.mutate(rng, body, 2)))
+        rs.append(mg.M(*es))
+    cfg = mg.rand_policy(rng, rs[0], with_rules=False)
+    deep = [(a, n) for a, n in mg.node_addrs(rs[0]) if len(a) >= 2]
+    rules, keys = [], []
+    if deep and rng.random() < 0.85:
+        for a, n in rng.sample(deep, min(len(deep), rng.randint(1, 2))):
+            rules.append([a, rng.choice(mg.valid_rule_names(n))])
+    aohs = [(a, n) for a, n in deep if n["k"] == "seq" and n["i"] and n["i"][0]["k"] == "map"]
+    if aohs and rng.random() < 0.6:
+        a, n = rng.choice(aohs)
+        keys.append([a, rng.choice([e[0] for e in n["i"][0]["e"] if isinstance(e[0], str)] + ["id", "n"])])
+    if rules:
+        cfg["rules"] = rules
+    if keys:
+        cfg["keys"] = keys
+    via = "ini" if (mg.needs_ini(cfg) or rng.random() < 0.1) else "kw"
+    return l, rs, cfg, via
+
+
+def impl_series(l, rs, cfg, via, limit_s=10.0):
+    """Merger(l, ONE MergerConfig) then merge_with(r) for each r in turn -> the outcome after every step
+    ([{"ok": doc} ..., possibly ending in {"err": ...}])."""
+    import signal
+    from yamlpath.merger import Merger
+    old = signal.signal(signal.SIGVTALRM, mg._alarm)
+    signal.setitimer(signal.ITIMER_VIRTUAL, limit_s)
+    out = []
+    try:
+        mc = mg.make_config(cfg, via)
+        m = Merger(mc.log, codec.json_to_ruamel(l), mc)
+        for r in rs:
+            m.merge_with(codec.json_to_ruamel(r))
+            out.append({"ok": codec.node_to_json(m.data, anchors=False)})
+    except mg.MergeTimeout:
+        out.append({"err": "timeout"})
+    except codec.OutOfModel:
+        out.append({"oom": 1})
+    except RecursionError as e:
+        out.append({"err": "crash:RecursionError", "site": core.crash_site(e)})
+    except Exception as e:  # noqa
+        out.append(mg.classify_exc(e))
+    finally:
+        signal.setitimer(signal.ITIMER_VIRTUAL, 0)
+        signal.signal(signal.SIGVTALRM, old)
+    return out
+
+
+def run_series(cases):
+    """Worker: every step of a series is judged as the merge of the document as it stood before that step (the real
+    Merger's own document, as data) with that step's right-hand document, against the model - which knows no earlier step."""
+    stats, findings, hist, nontrivial = {"n": 0, "oom": 0}, [], {}, 0
+    runs, reqs, ctx = [], [], []
+    for (l, rs, cfg, via) in cases:
+        ims = impl_series(l, rs, cfg, via)
+        before = l
+        for k, im in enumerate(ims):
+            try:
+                mc = mg.model_cfg(cfg, [before, rs[k]])
+            except codec.OutOfModel:
+                stats["oom"] += 1
+                break
+            reqs.append({"op": "C05.merge", "l": before, "r": rs[k], "cfg": mc})
+            ctx.append((l, rs, cfg, via, k, before, im))
+            if "ok" not in im:
+                break
+            before = im["ok"]
+    model = core.Driver().ask(reqs) if reqs else []
+    dead = set()
+    for (l, rs, cfg, via, k, before, im), mo in zip(ctx, model):
+        stats["n"] += 1
+        key = "series:step%d" % (k + 1)
+        hist[key] = hist.get(key, 0) + 1
+        if id(rs) in dead:
+            continue
+        j = judge(before, rs[k], cfg, via, im, mo)
+        if j is None:
+            stats["oom"] += 1
+            dead.add(id(rs))
+            continue
+        if j and rule_hits_twin(rs[k], cfg):
+            keep = [x for x in j if "@" in x[1]]
+            if len(keep) != len(j):
+                stats["oom"] += 1
+            j = keep
+        if "ok" in im and im["ok"] != before:
+            nontrivial += 1
+        if j:
+            dead.add(id(rs))      # later steps start from a document that is already wrong
+        for kind_, sig, what in j:
+            what = "series of %d merges by one Merger, step %d: %s  [left document at the start %s; right-hand documents %s]" % (
+                len(rs), k + 1, what, _show(l), [_show(r) for r in rs])
+            if len(findings) < 40:
+                findings.append((kind_, "series:" + sig if k else sig, what,
+                                 {"series": {"l": l, "rs": rs}, "cfg": cfg, "via": via, "step": k + 1, "impl": im, "model": mo}))
+    return stats, findings, [], nontrivial, hist
+
+
+def _series_job(job):
+    _tag, seed, n = job
+    rng = random.Random(seed)
+    return run_series([series_case(rng) for _ in range(n)])
+
+
+# --------------------------------------------------------------------------- left documents with YAML merge keys (<<: *anchor)
+
+def _ytext(d, ind=0):
+    """Block-style YAML text of a canonical document (maps, lists, scalars; no sets)."""
+    pad = "  " * ind
+    k = d["k"]
+    if k == "map":
+        if not d["e"]:
+            return " {}\n"
+        return "\n" + "".join("%s%s:%s" % (pad, kk, _ytext(v, ind + 1)) for kk, v in d["e"])
+    if k == "seq":
+        if not d["i"]:
+            return " []\n"
+        return "\n" + "".join("%s-%s" % (pad, _ytext(v, ind + 1)) for v in d["i"])
+    return " %s\n" % json.dumps(codec.json_to_plain(d))
+
+
+def _no_sets(d):
+    k = d["k"]
+    if k == "set":
+        return mg.L(*[mg.S(m) for m in d["m"]])
+    if k == "map":
+        return {"k": "map", "e": [[kk, _no_sets(v)] for kk, v in d["e"] if isinstance(kk, str)]}
+    if k == "seq":
+        return {"k": "seq", "i": [_no_sets(v) for v in d["i"]]}
+    return d
+
+
+def mergekey_case(rng):
+    """A left document in which two or three Hashes pull the keys of an anchored Hash in with a YAML merge key
+    (`<<: *b`), some overriding / adding keys of their own; a right-hand document that names ONE of those Hashes and, in it,
+    inherited keys (with Hash / Array / Scalar values), own keys and new keys in random order."""
+    base = _no_sets(mg.rand_doc(rng, 2, "map"))
+    base["e"] = [e for e in base["e"]][:3] + [["sub", mg.M(("p", mg.S(1)))], ["l", mg.L(mg.S(1))]]
+    seen, es = set(), []
+    for kk, v in base["e"]:
+        if kk not in seen:
+            seen.add(kk)
+            es.append([kk, v])
+    base["e"] = es
+    users = rng.sample(["use", "other", "third"], rng.choice([2, 3]))
+    own = {}
+    text = "base: &b" + _ytext(base, 1)
+    for u in users:
+        mine = [[kk, _no_sets(mg.rand_doc(rng, 1))] for kk in rng.sample(["y", "own", "x2"], rng.randint(0, 2))]
+        if rng.random() < 0.3:      # an own key that overrides an inherited one
+            mine.append([rng.choice(base["e"])[0], _no_sets(mg.rand_doc(rng, 1))])
+        own[u] = mine
+        text += "%s:\n  <<: *b\n" % u + "".join("  %s:%s" % (kk, _ytext(v, 2)) for kk, v in mine)
+    target = rng.choice(users)
+    names = []
+    for kk, v in base["e"]:
+        if rng.random() < 0.6:
+            names.append([kk, mg.mutate(rng, v, 2) if rng.random() < 0.8 else _no_sets(mg.rand_doc(rng, 1))])
+    for kk, v in own[target]:
+        if rng.random() < 0.5 and all(kk != n[0] for n in names):
+            names.append([kk, mg.mutate(rng, v, 1)])
+    if rng.random() < 0.4:
+        names.append(["brandnew", mg.S(7)])
+    rng.shuffle(names)
+    if not names:
+        names = [["sub", mg.M(("q", mg.S(2)))]]
+    rhs = _no_sets(mg.M((target, {"k": "map", "e": names})))
+    cfg = {"array": rng.choice(["all", "all", "unique", "left", "right"]), "aoh": rng.choice(["all", "deep", "unique"])}
+    return {"ltext": text, "r": rhs, "cfg": cfg, "target": target}
+
+
+def _plainview(n):
+    if isinstance(n, dict):
+        return {str(k): _plainview(v) for k, v in n.items()}
+    if isinstance(n, (list, tuple)):
+        return [_plainview(v) for v in n]
+    if isinstance(n, bool) or n is None:
+        return n
+    if isinstance(n, int):
+        return int(n)
+    if isinstance(n, float):
+        return float(n)
+    return str(n)
+
+
+def run_mergekey(case):
+    """The clause 'left-hand content the right-hand document does not name keeps its value' on a document with YAML merge
+    keys: every top-level Hash the right-hand document does not name reads (inherited keys included) as before - in memory
+    and in the written document re-read by a plain YAML loader -, and so does every key of the named Hash that the
+    right-hand document does not name (in the re-read document; the library drops the inherited view keys in memory)."""
+    import io
+    import signal
+    from ruamel.yaml import YAML
+    from yamlpath.common import Parsers
+    from yamlpath.merger import Merger
+    from yamlpath.merger.exceptions import MergeException
+    old = signal.signal(signal.SIGVTALRM, mg._alarm)
+    signal.setitimer(signal.ITIMER_VIRTUAL, 10.0)
+    out = []
+    desc = "merge of the document %r with %s under %s" % (case["ltext"], _show(case["r"]), json.dumps(case["cfg"], sort_keys=True))
+    try:
+        ed = Parsers.get_yaml_editor()
+        lhs = ed.load(case["ltext"])
+        before = _plainview(lhs)
+        mc = mg.make_config(case["cfg"], "kw")
+        m = Merger(mc.log, lhs, mc)
+        try:
+            m.merge_with(codec.json_to_ruamel(case["r"]))
+        except MergeException:
+            return out, False
+        mem = _plainview(m.data)
+        m.prepare_for_dump(ed)
+        buf = io.StringIO()
+        ed.dump(m.data, buf)
+        reread = _plainview(YAML(typ="safe", pure=True).load(buf.getvalue()))
+        named = {kk: v for kk, v in case["r"]["e"][0][1]["e"]}
+        for top, val in before.items():
+            if top != case["target"]:
+                for view, doc in (("in memory", mem), ("re-read from the written document", reread)):
+                    if doc.get(top) != val:
+                        out.append(("violation", "mergekey:unnamed-hash-changed",
+                                    "%s: /%s, which the right-hand document does not name, reads %s %s; it was %s" % (
+                                        desc, top, json.dumps(doc.get(top)), view, json.dumps(val))))
+                        break
+            else:
+                got = reread.get(top)
+                for kk, v in val.items():
+                    if kk not in named and (not isinstance(got, dict) or got.get(kk) != v):
+                        out.append(("violation", "mergekey:unnamed-key-changed",
+                                    "%s: /%s/%s, which the right-hand document does not name, reads %s in the written document; it was %s" % (
+                                        desc, top, kk, json.dumps(got.get(kk) if isinstance(got, dict) else got), json.dumps(v))))
+                        break
+                for kk, v in named.items():
+                    if v["k"] not in ("map", "seq", "set") and isinstance(got, dict) and got.get(kk) != _plainview(codec.json_to_plain(v)) \
+                            and not isinstance(val.get(kk), (dict, list)):
+                        out.append(("violation", "mergekey:named-scalar-not-taken",
+                                    "%s: /%s/%s reads %s in the written document; the right-hand document sets %s" % (
+                                        desc, top, kk, json.dumps(got.get(kk)), _show(v))))
+                        break
+            if out:
+                break
+        return out, True
+    except mg.MergeTimeout:
+        return [("violation", "timeout", desc + " did not finish")], False
+    except Exception as e:  # noqa
+        return [("violation", "mergekey:%s@%s" % (core.exc_class(e), core.crash_site(e)), "%s raised %s" % (desc, type(e).__name__))], False
+    finally:
+        signal.setitimer(signal.ITIMER_VIRTUAL, 0)
+        signal.signal(signal.SIGVTALRM, old)
+
+
+def _mergekey_job(job):
+    _tag, seed, n = job
+    rng = random.Random(seed)
+    stats, findings, hist, nontrivial = {"n": 0, "oom": 0}, [], {}, 0
+    for _ in range(n):
+        c = mergekey_case(rng)
+        v, nt = run_mergekey(c)
+        stats["n"] += 1
+        nontrivial += 1 if nt else 0
+        hist["mergekey:" + ("merged" if nt else "refused-or-failed")] = hist.get("mergekey:" + ("merged" if nt else "refused-or-failed"), 0) + 1
+        for kind_, sig, what in v:
+            if len(findings) < 40:
+                findings.append((kind_, sig, what, dict(c, mergekey=True)))
+    return stats, findings, [], nontrivial, hist
+
+
 def _job(job):
+    if job[0] == "SERIES":
+        return _series_job(job)
+    if job[0] == "MERGEKEY":
+        return _mergekey_job(job)
     if job[0] == "EXH":
         return _exh_job(job)
     if job[0] == "RAND":
@@ -341,9 +649,22 @@ def run(chk: core.Check):
     if chk.replay_in:
         rp = json.load(open(chk.replay_in))
         c = rp.get("case", rp)
-        if "l" not in c:
+        if c.get("mergekey"):
+            v, _nt = run_mergekey(c)
+            chk.evaluations += 1
+            for kind_, sig, what in v:
+                print("replay:", sig, "::", what[:800])
+                chk.violation(sig, what, c)
+            return chk
+        if c.get("series"):
+            results = [run_series([(c["series"]["l"], c["series"]["rs"], c.get("cfg", {}), c.get("via", "kw"))])]
+            for f in results[0][1]:
+                print("replay:", f[1], "::", f[2][:800])
+            c = {}
+        elif "l" not in c:
             print("replay: nothing to run for", json.dumps(c)[:300])
             return chk
+    if chk.replay_in and "l" in c:
         case = (c["l"], c["r"], c.get("cfg", {}), c.get("via", "kw"))
         res = run_cases([case])
         im = mg.impl_merge(*case)
@@ -352,7 +673,7 @@ def run(chk: core.Check):
                                      "impl": im if "err" in im else _show(im["ok"]),
                                      "model": mo if "err" in mo else _show(mo["ok"])}))
         results = [res]
-    else:
+    elif not chk.replay_in:
         table_checks(chk)
         precedence_checks(chk, rng, 400 if tier == "quick" else 4000)
         bound = int(os.environ.get("YPV_EXH_BOUND") or (2 if tier == "quick" else 3))   # override: developer runs only
@@ -366,6 +687,12 @@ def run(chk: core.Check):
         nrand = int(os.environ.get("YPV_NRAND") or (300000 if tier == "quick" else 3000000))
         per_job = 2500
         jobs += [("RAND", chk.seed * 100003 + i, per_job) for i in range(nrand // per_job)]
+        nser = int(os.environ.get("YPV_NSERIES") or (24000 if tier == "quick" else 240000))
+        jobs += [("SERIES", chk.seed * 100019 + 3 + i, 1000) for i in range(nser // 1000)]
+        nmk = int(os.environ.get("YPV_NMERGEKEY") or (4000 if tier == "quick" else 40000))
+        jobs += [("MERGEKEY", chk.seed * 100043 + 9 + i, 250) for i in range(nmk // 250)]
+        chk.extra_cov["series_of_merges"] = nser
+        chk.extra_cov["merge_key_documents"] = nmk
         chk.exhaustive = True
         chk.extra_cov["exhaustive_bound"] = ("all %d x %d ordered pairs of documents with <= %d nodes x 180 policy combinations"
                                              % (len(docs), len(docs), bound))
